@@ -68,8 +68,8 @@ require (
 	github.com/yusufpapurcu/wmi v1.2.4 // indirect
 	github.com/zyedidia/generic v1.2.1 // indirect
 	go.minekube.com/brigodier v0.0.2 // indirect
-	go.minekube.com/common v0.4.0 // indirect
-	go.minekube.com/connect v0.6.3-0.20260803141147-8001cda93b1d // indirect
+	go.minekube.com/common v0.4.0
+	go.minekube.com/connect v0.6.3-0.20260803141147-8001cda93b1d
 	go.minekube.com/geyserlite v0.5.1 // indirect
 	go.minekube.com/vialite v0.3.0 // indirect
 	go.opentelemetry.io/auto/sdk v1.2.1 // indirect
@@ -103,8 +103,8 @@ require (
 	google.golang.org/genproto/googleapis/api v0.0.0-20260414002931-afd174a4e478 // indirect
 	google.golang.org/genproto/googleapis/rpc v0.0.0-20260414002931-afd174a4e478 // indirect
 	google.golang.org/grpc v1.82.1 // indirect
-	google.golang.org/protobuf v1.36.11 // indirect
-	gopkg.in/yaml.v3 v3.0.1 // indirect
+	google.golang.org/protobuf v1.36.11
+	gopkg.in/yaml.v3 v3.0.1
 	pgregory.net/rapid v1.3.0
 )
 
